@@ -220,6 +220,8 @@ EvalFails(e) ==
    THEN {<<"TOOL", "mirror", "">>} ELSE {})
   \cup (IF e.e_m # e.e THEN {<<"C14", "mirror", D(<<e.e, e.e_m>>)>>} ELSE {})
   \cup (IF e.e_swap # -e.e THEN {<<"C14", "side-relative", D(<<e.e, e.e_swap>>)>>} ELSE {})
+  \cup (IF Has(e, "e_swap_stalekey") /\ e.e_swap_stalekey # -e.e THEN {<<"C14", "side-relative-depends-on-key", D(<<e.e, e.e_swap_stalekey>>)>>} ELSE {})
+  \cup (IF Has(e, "e_again") /\ e.e_again # e.e THEN {<<"C14", "not-a-function-of-the-position", D(<<e.e, e.e_again>>)>>} ELSE {})
   \cup (IF \E i \in 1..Len(e.e_var) : e.e_var[i] # e.e THEN {<<"C14", "depends-on-non-placement", D(e.e_var)>>} ELSE {})
   \cup (IF BoundedMaterial(p.b) /\ (e.e >= EvalBound \/ e.e <= -EvalBound) THEN {<<"C14", "bound", D(e.e)>>} ELSE {})
 
